@@ -40,8 +40,9 @@ GENERIC_REPLAY = '''
 # no minimal program was recorded for this clause: the failing case above is reproduced by re-running the
 # bounded stand-in of the property with the same tier and seed (exit status 1 when the clause fails again)
 import json, os, subprocess, sys
+VERIF = os.environ.get("PYVC_VERIF", os.path.dirname(os.path.dirname(os.path.dirname(os.path.abspath(__file__)))))
 env = dict(os.environ, PYTHONPATH=os.environ.get("PYVC_REPO", "/repo") + ":" + VERIF, PYTHONDONTWRITEBYTECODE="1")
-out = "/tmp/replay_{prop}_{clause}.json"
+out = os.path.join(os.path.dirname(os.path.abspath(__file__)), "replay_{prop}_{clause}.out.json")
 subprocess.call([sys.executable, "-m", "bounded.run", "{prop}", "--tier", "{tier}", "--seed", "{seed}", "--out", out],
                 cwd=os.environ.get("PYVC_REPO", "/repo"), env=env)
 fails = [f for f in json.load(open(out))["failures"] if f["clause"] == "{clause}"]
